@@ -21,6 +21,47 @@ ASSUMPTIONS = [
 ]
 
 RMKINDS = ["list", "list", "set", "array", "tuple", "generator", "chain", "map"]
+# how a cut callback hands back its removal request: a python bool, a numpy bool, or whatever the comparison it makes yields ("asis": comparing
+# node attributes - `n.type == 2`, `n.r > 0.5` - yields numpy bools, comparing python counters yields python bools)
+FLAGS = ["py", "np", "asis"]
+# how an integer / float parameter (start node, type, furcation order, length threshold) arrives: as a python number or as a numpy scalar
+# (taken out of an array / a column / `np.arange`)
+INT_KINDS = ["py", "int64", "int32", "py", "intp"]
+FLOAT_KINDS = ["py", "float64", "float32"]
+# the operations that report a new-to-old mapping through `out_mapping`
+MAP_OPS = ("subtree", "tosub")
+
+
+def as_param(v, kind):
+    return v if kind in (None, "py") else getattr(np, kind)(v)
+
+
+def as_flag(x, flag):
+    return bool(x) if flag == "py" else (np.bool_(x) if flag == "np" else x)
+
+
+def attr_holds(pred, types, i):
+    """the rule of a `cutattr` callback, on the effective tree: node i is designated iff its attribute compares so (r and tag are the
+    position tags (i + 1) / 8 and 1000 + i that `run` gives every tree)"""
+    a, v = pred["attr"], pred["v"]
+    if a == "type":
+        return types[i] == v
+    if a == "r":
+        return (i + 1) / 8 > v
+    if a == "tag":
+        return 1000 + i >= v
+    raise ValueError(a)
+
+
+def dump_container(om):
+    """the caller's out_mapping container, whole: every key of a dict, every entry of a list"""
+    if isinstance(om, dict):
+        return {"dict": sorted([int(k), int(v)] for k, v in om.items())}
+    return {"list": [int(v) for v in om]}
+
+
+def container_of(kind, m):
+    return {"dict": [[i, o] for i, o in enumerate(m)]} if kind == "dict" else {"list": list(m)}
 
 
 def lattice_tree(rng, n, shape):
@@ -73,6 +114,8 @@ def expected_kept(op, t):
         return root, set(desc(kids, root))
     if k in ("tosub", "cutenter"):
         seeds = op["rm"]
+    elif k == "cutattr":
+        seeds = [v for v in range(n) if attr_holds(op["pred"], t["types"], v)]
     elif k == "cutdepth":
         depth = {0: 0}
         for v in desc(kids, 0):
@@ -138,12 +181,26 @@ class Ops(Suite):
                     out.append({"class": f"all-n{n}/subtree", "tree": t, "op": {"op": "subtree", "n": v}})
                 if n >= 2:
                     out.append({"class": f"all-n{n}/tosub", "tree": t, "op": {"op": "tosub", "rm": [rng.randrange(1, n)], "rmkind": rng.choice(RMKINDS)}})
+                    # a callback that decides from the node's attributes, in the enter and in the leave form
+                    for form in ("enter", "leave"):
+                        out.append({"class": f"all-n{n}/cutattr", "tree": t, "flag": "asis",
+                                    "op": {"op": "cutattr", "form": form, "pred": self._pred(rng, t, False)}})
+                # one out_mapping container used for two extractions in a row, the second result smaller than the first: every such pair
+                kids = kids_of(pids)
+                size = [len(desc(kids, v)) for v in range(n)]
+                for a in range(n):
+                    for b in range(n):
+                        if size[a] > size[b]:
+                            mk = ["dict", "list", "dict"][(a + b + n) % 3]
+                            out.append({"class": f"all-n{n}/subtree/reuse-shrink", "tree": t, "mapkind": mk,
+                                        "op": {"op": "subtree", "n": b, "via": rng.choice(["func", "node"])},
+                                        "reuse": [{"op": "subtree", "n": a, "via": rng.choice(["func", "node"])}]})
         for n in gen.sizes(tier, widen):
             for _ in range(2 if not big else 6):
                 shape = gen.pick_shape(rng, k); k += 1
                 t = lattice_tree(rng, n, shape)
                 nn = t["n"]
-                ops = [{"op": "subtree", "n": rng.randrange(nn)}]
+                ops = [{"op": "subtree", "n": rng.randrange(nn), "via": rng.choice(["func", "node"])}]
                 if nn > 1:
                     ops += [{"op": "tosub", "rm": rng.sample(range(1, nn), rng.randint(0, min(4, nn - 1))), "rmkind": rng.choice(RMKINDS)},
                             {"op": "cutenter", "rm": rng.sample(range(1, nn), rng.randint(0, min(3, nn - 1)))},
@@ -151,7 +208,8 @@ class Ops(Suite):
                             {"op": "cutleave", "h": rng.randint(0, 2)},
                             {"op": "cuttype", "t": rng.choice(sorted(set(t["types"])))},
                             {"op": "cutorder", "m": rng.randint(1, 3)},
-                            {"op": "cuttip", "thre": rng.randint(0, 7)}]
+                            {"op": "cuttip", "thre": rng.randint(0, 7)},
+                            {"op": "cutattr", "form": "enter"}, {"op": "cutattr", "form": "leave"}]
                 for op in ops:
                     case = {"class": f"{shape}/{op['op']}", "tree": t, "op": op, "mapkind": rng.choice(["list", "dict", None])}
                     # a third of the operations act on a tree DERIVED (re-rooted / sorted copy) from a tree on which every query and cut has
@@ -159,11 +217,68 @@ class Ops(Suite):
                     if nn >= 3 and rng.random() < 0.34 and op["op"] not in ("cuttip",):
                         case["derive"] = rng.choice(["sort", f"redirect:{rng.randrange(1, nn)}"])
                         case["class"] += "/derived"
+                    if op["op"] == "cutattr":
+                        op["pred"] = self._pred(rng, t, "derive" in case)
+                    # the flavour of the values that cross the API: the removal flag a callback hands back (python bool / numpy bool / whatever
+                    # its comparison yields) and the numeric parameters (python numbers / numpy scalars). Round-robin, so that every flavour
+                    # meets every operation in every run.
+                    if op["op"] in ("cutenter", "cutdepth", "cutleave", "cutattr"):
+                        case["flag"] = FLAGS[(k + len(out)) % len(FLAGS)]
+                    else:
+                        kinds = FLOAT_KINDS if op["op"] == "cuttip" else INT_KINDS
+                        case["pkind"] = kinds[(k + len(out)) % len(kinds)]
                     out.append(case)
                     if nn >= 4 and op["op"] in ("cutorder", "cutleave", "cuttype") and "derive" not in case:
                         # the rules that ask nodes about their children (furcation order, tips): always also on a re-rooted copy
                         out.append(dict(case, derive=f"redirect:{rng.randrange(1, nn)}", **{"class": case["class"] + "/derived"}))
+                    if op["op"] in ("cutorder", "cutleave", "cutdepth", "cutenter", "cuttype") and nn >= 3:
+                        # ... and the same request once more in the other flavour
+                        if "flag" in case:
+                            out.append(dict(case, flag="np" if case["flag"] == "py" else "py", **{"class": case["class"] + "/flavour"}))
+                        else:
+                            out.append(dict(case, pkind="int64" if case["pkind"] == "py" else "py", **{"class": case["class"] + "/flavour"}))
+                # the caller's out_mapping container has been used before: the same dict / list receives the mapping of several extractions
+                # and removals in a row (any of the three entry points), growing and SHRINKING results alike - what it holds after a call is
+                # the mapping of that call's result and nothing else
+                if nn >= 3:
+                    kids = kids_of(t["pids"])
+                    for mk in ("dict", "list", "dict"):
+                        steps = []
+                        for _ in range(rng.randint(2, 4)):
+                            if rng.random() < 0.55:
+                                steps.append({"op": "subtree", "n": rng.randrange(nn), "via": rng.choice(["func", "node"])})
+                            else:
+                                steps.append({"op": "tosub", "rm": rng.sample(range(1, nn), rng.randint(0, min(3, nn - 1))), "rmkind": rng.choice(RMKINDS)})
+                        # guaranteed: the last result is smaller than the one before it
+                        sz = lambda o: len(expected_kept(o, t)[1])
+                        if sz(steps[-1]) >= sz(steps[-2]):
+                            v = rng.randrange(1, nn)
+                            whole = [{"op": "tosub", "rm": [], "rmkind": "list"}, {"op": "subtree", "n": 0, "via": rng.choice(["func", "node"])}]
+                            if rng.random() < 0.5:
+                                steps[-1] = {"op": "subtree", "n": v, "via": rng.choice(["func", "node"])}
+                                steps[-2] = rng.choice(whole + [{"op": "subtree", "n": t["pids"][v], "via": rng.choice(["func", "node"])}])
+                            else:
+                                steps[-1] = {"op": "tosub", "rm": [v] + rng.sample(range(1, nn), rng.randint(0, 2)), "rmkind": rng.choice(RMKINDS)}
+                                steps[-2] = rng.choice(whole)
+                        sizes_ = [sz(o) for o in steps]
+                        kind = "shrink" if sizes_[-1] < sizes_[-2] else "other"
+                        case = {"class": f"{shape}/{steps[-1]['op']}/reuse-{kind}", "tree": t, "op": steps[-1], "reuse": steps[:-1], "mapkind": mk}
+                        if rng.random() < 0.3:     # (on a derived tree the sizes are those of the derived tree: no guarantee there)
+                            case["derive"] = rng.choice(["sort", f"redirect:{rng.randrange(1, nn)}"])
+                            case["class"] = f"{shape}/{steps[-1]['op']}/reuse/derived"
+                        out.append(case)
         return out
+
+    @staticmethod
+    def _pred(rng, t, derived):
+        """a rule that a callback evaluates on the node's own attributes; it never designates the root (type 1, smallest r, smallest tag)"""
+        n = t["n"]
+        a = rng.choice(["r", "tag"] if derived else ["type", "r", "tag", "type"])
+        if a == "type":
+            return {"attr": "type", "v": rng.choice([2, 3, 4])}
+        if a == "r":
+            return {"attr": "r", "v": rng.choice([rng.randint(1, n) / 8, rng.randint(1, n) / 8 + 1 / 16])}
+        return {"attr": "tag", "v": 1000 + rng.randint(1, n)}
 
     def run(self, case):
         from swcgeom.core.tree_utils import cut_tree, get_subtree, to_subtree
@@ -197,49 +312,76 @@ class Ops(Suite):
         before = {k: t.get_ndata(k).copy() for k in t.keys()}
         op = case["op"]
         k = op["op"]
-        mk = case.get("mapkind")
+        mk = case.get("mapkind") if k in MAP_OPS else None
         om = [] if mk == "list" else ({} if mk == "dict" else None)
-        if k == "subtree":
-            y = get_subtree(t, op["n"], out_mapping=om)
-            y2 = t.node(op["n"]).subtree()
-            extra["node_subtree_same"] = bool(np.array_equal(y.pid(), y2.pid()) and np.array_equal(y.r(), y2.r()))
-        elif k == "tosub":
+        pk, flag = case.get("pkind"), case.get("flag", "asis")
+        import itertools
+
+        def extract(o, om, pk=None):
+            if o["op"] == "subtree":
+                v = as_param(o["n"], pk)
+                return t.node(v).subtree(out_mapping=om) if o.get("via") == "node" else get_subtree(t, v, out_mapping=om)
             # `removals: Iterable[int]`: lists, sets, arrays and one-shot iterables (generator, chain, map) alike
-            rk = op.get("rmkind", "list")
-            rm = list(op["rm"])
-            import itertools
+            rk = o.get("rmkind", "list")
+            rm = list(o["rm"])
             arg = {"list": lambda: rm, "set": lambda: set(rm), "array": lambda: np.array(rm, dtype=np.int64), "tuple": lambda: tuple(rm),
                    "generator": lambda: (i for i in rm), "chain": lambda: itertools.chain(rm[:1], rm[1:]), "map": lambda: map(int, rm)}[rk]()
-            y = to_subtree(t, arg, out_mapping=om)
+            return to_subtree(t, arg, out_mapping=om)
+
+        # the same container has received the mappings of these calls before
+        if case.get("reuse") and om is not None:
+            extra["steps"] = []
+            for o in case["reuse"]:
+                ys = extract(o, om)
+                extra["steps"].append({"m": [int(round(float(v) * 8)) - 1 for v in ys.r()], "container": dump_container(om)})
+        if k == "subtree":
+            y = extract(op, om, pk)
+            # the other entry point, with a container of its own
+            om2 = None if om is None else type(om)()
+            y2 = extract(dict(op, via="func" if op.get("via") == "node" else "node"), om2)
+            extra["node_subtree_same"] = bool(np.array_equal(y.pid(), y2.pid()) and np.array_equal(y.r(), y2.r()))
+            if om2 is not None:
+                extra["container2"] = dump_container(om2)
+        elif k == "tosub":
+            y = extract(op, om)
         elif k == "cutenter":
             rm = set(op["rm"])
-            y = cut_tree(t, enter=lambda n, pv: ((0 if pv is None else pv + 1), n.id in rm))
+            y = cut_tree(t, enter=lambda n, pv: ((0 if pv is None else pv + 1), as_flag(int(n.id) in rm, flag)))
         elif k == "cutdepth":
             d = op["d"]
-            y = cut_tree(t, enter=lambda n, pv: ((0 if pv is None else pv + 1), (0 if pv is None else pv + 1) >= d))
+            y = cut_tree(t, enter=lambda n, pv: ((0 if pv is None else pv + 1), as_flag((0 if pv is None else pv + 1) >= d, flag)))
         elif k == "cutleave":
             h = op["h"]
 
             def leave(n, ks):
                 ht = max([x + 1 for x in ks], default=0)
-                return ht, (ht <= h and n.id != 0)
+                return ht, as_flag(ht <= h and int(n.id) != 0, flag)
 
             y = cut_tree(t, leave=leave)
+        elif k == "cutattr":
+            # the removal request is computed from the node's own attributes (numpy scalars), as `n.type == 2`, `n.r > 0.5`, `n["tag"] >= 1003`
+            pr = op["pred"]
+            v = pr["v"]
+            rule = {"type": lambda n: n.type == v, "r": lambda n: n.r > v, "tag": lambda n: n["tag"] >= v}[pr["attr"]]
+            if op["form"] == "enter":
+                y = cut_tree(t, enter=lambda n, pv: (None, as_flag(rule(n), flag)))
+            else:
+                y = cut_tree(t, leave=lambda n, ks: (1 + sum(ks), as_flag(rule(n), flag)))
         elif k == "cuttype":
-            y = CutByType(op["t"])(t)
+            y = CutByType(as_param(op["t"], pk))(t)
         elif k == "cutorder":
             with warnings.catch_warnings():
                 warnings.simplefilter("ignore")
-                y = CutByFurcationOrder(op["m"])(t)
+                y = CutByFurcationOrder(as_param(op["m"], pk))(t)
         else:
-            y = CutShortTipBranch(thre=op["thre"])(t)
+            y = CutShortTipBranch(thre=as_param(op["thre"], pk))(t)
         res = {"pid": y.pid().tolist(), "id": y.id().tolist(), "r": [float(v) for v in y.r()], "type": y.type().tolist(),
                "xyz": y.xyz().astype(float).tolist(), "input_unchanged": bool(all(np.array_equal(before[c], t.get_ndata(c)) for c in before)),
                "keys": sorted(str(c) for c in y.keys()),
                "tag": [float(v) for v in y.get_ndata("tag")] if "tag" in y.keys() else None,
                "level": [int(v) for v in y.get_ndata("level")] if "level" in y.keys() else None}
-        if om is not None and k in ("subtree", "tosub"):
-            res["out_mapping"] = [int(om[i]) for i in range(len(om))] if isinstance(om, dict) else [int(v) for v in om]
+        if om is not None:
+            res["container"] = dump_container(om)
         if k == "subtree" and op["n"] == 0 and case["tree"]["types"][0] == 1:
             res["neurites"] = [[float(v) for v in s.r()] for s in t.get_neurites()]
             res["dendrites"] = [[float(v) for v in s.r()] for s in t.get_dendrites()]
@@ -276,6 +418,11 @@ class Ops(Suite):
             a += f" n={op['n']}"
         elif k in ("tosub", "cutenter"):
             a += f" rm={gen.ints(op['rm'])}"
+        elif k == "cutattr":
+            # the model of a cut whose callback designates a given set of nodes: on entering (cutenter), or - for the leave form, where the
+            # removal marks are propagated to the descendants afterwards - the removal of that set (tosub)
+            k = "cutenter" if op["form"] == "enter" else "tosub"
+            a += f" rm={gen.ints([v for v in range(t['n']) if attr_holds(op['pred'], t['types'], v)])}"
         elif k == "cutdepth":
             a += f" d={op['d']}"
         elif k == "cutleave":
@@ -295,7 +442,8 @@ class Ops(Suite):
         out = []
         root, kept = expected_kept(op, t)
         m = self._mapping(case, res)
-        what = f"{op} on pids={t['pids']}"
+        flav = "".join(f" [{k_}: {case[k_]}]" for k_ in ("flag", "pkind") if case.get(k_) not in (None, "py"))
+        what = f"{op}{flav} on pids={t['pids']}"
         if sorted(m) != sorted(kept) or len(set(m)) != len(m):
             return [(f"{op['op']}-kept", f"{what}: survivors (old ids) {sorted(m)}, the rule designates {sorted(kept)}")]
         n2 = len(m)
@@ -313,8 +461,18 @@ class Ops(Suite):
             out.append((f"{op['op']}-extra-column-dropped", f"{what}: the result has columns {res.get('keys')}; the input also had 'tag' and 'level'"))
         elif res["tag"] != [1000.0 + o for o in m] or res["level"] != [(o * 7) % 5 for o in m]:
             out.append((f"{op['op']}-extra-column", f"{what}: extra columns of the survivors are {res['tag'][:6]}… / {res['level'][:6]}…, their nodes had {[1000.0 + o for o in m][:6]}… / {[(o * 7) % 5 for o in m][:6]}…"))
-        if "out_mapping" in res and res["out_mapping"] != m:
-            out.append((f"{op['op']}-mapping", f"{what}: reported mapping {res['out_mapping']}, actual new→old {m}"))
+        # the reported mapping is the WHOLE content of the caller's container: new id -> old id for the nodes of this result, and no other entry -
+        # whatever the container held before (the results of earlier calls)
+        mk = case.get("mapkind")
+        for key, label in (("container", ""), ("container2", " (other entry point)")):
+            if key in res and res[key] != container_of(mk, m):
+                hist = f" after {case['reuse']} had filled the same {mk}" if case.get("reuse") and key == "container" else ""
+                out.append((f"{op['op']}-mapping", f"{what}{hist}: reported mapping{label} {res[key]}, actual new→old {container_of(mk, m)}"))
+        for i, st in enumerate(res.get("steps", [])):
+            if st["container"] != container_of(mk, st["m"]):
+                out.append((f"{case['reuse'][i]['op']}-mapping", f"call {i} of {case['reuse']} into one {mk} on pids={t['pids']}: reported mapping "
+                            f"{st['container']}, actual new→old {container_of(mk, st['m'])}"))
+                break
         if res.get("node_subtree_same") is False:
             out.append(("node-subtree", f"{what}: Tree.Node.subtree() differs from get_subtree"))
         if "neurites" in res:
